@@ -271,6 +271,7 @@ theorem exec_plain_pres (s : Sys) (t : Nat) (op : Op) (hp : isPlain op = true) (
   | ctxOf v => simp only [exec]; split <;> exact Pres.refl _
   | ctxLocal => simp only [exec]; split <;> exact Pres.refl _
   | toRecords x tr sp => simp only [exec]; split <;> exact Pres.refl _
+  | dropLocalSpans x => simp only [exec]; exact Pres.refl _
   | cycle => simp only [exec]; split <;> first | exact Pres.refl _ | (rw [show (s.cycle.1, Obs.report s.cycle.2).1.th t = s.th t from Sys.cycle_th s t]; exact Pres.refl _)
   | flush => simp only [exec]; split <;> first | exact Pres.refl _ | (rw [show (s.cycle.1, Obs.report s.cycle.2).1.th t = s.th t from Sys.cycle_th s t]; exact Pres.refl _)
   | cycBegin => rw [show (exec s t .cycBegin).1.th t = s.th t from Sys.cycBegin_th s t]; exact Pres.refl _
